@@ -557,6 +557,26 @@ def _scen_twin(out, ctx, case, n, ref):
     r2 = ctx.draws(d2, s2, n)
     _cmp(ctx, "twin-differs:%s" % ctx.cname, ref, r1, {"which": "first twin"})
     _cmp(ctx, "twin-differs:%s" % ctx.cname, ref, r2, {"which": "second twin (drawn after the first)"})
+    carries_spare = ctx.cname in ("DistNormal", "DistLogNormal") and n % 2 == 1
+    if carries_spare:
+        # (the polar method produces normal variates in pairs: after an odd number of draws the instance holds the
+        # second variate of the last pair, which no stream operation can take back - by design)
+        out.label("reseed-skipped:spare-variate-held")
+    if not s1.scripted and not out.disc and not carries_spare:
+        # "equally seeded" also when the stream of a used distribution is seeded again - with the seed it has (a seed
+        # updater that serves replication r twice) or through reset(): the draws start over
+        for how in ("set_seed", "reset"):
+            try:
+                if how == "set_seed":
+                    s1.set_seed(s1.seed())
+                else:
+                    s1.reset()
+            except Exception as e:                                # noqa: BLE001
+                ctx.fail("reseed-raises:%s:%s" % (ctx.cname, type(e).__name__), repr(e))
+                return
+            again = ctx.draws(d1, s1, n)
+            _cmp(ctx, "reseeded-stream-differs:%s" % ctx.cname, ref, again, {"how": how})
+        out.label("stream-seeded-again")
 
 
 def _scen_interleave(out, ctx, case, n, ref, info):
